@@ -5,12 +5,13 @@ Line protocol of the `flatten` correspondence stream (`Ach.Flatten.flatten` vs t
 `flatten <B>|<B>|…`   the batches **in processing order** (the order the real `sort.Slice` by entry count leaves them in —
                       computed on the Go side by the same `sort.Slice` call shape, since the sort is unstable)
    B = `<sig>:<E>/<E>/…` or `<sig>:-` (no entries);   E = `<trace>,<payload>`   (all naturals: interned header signature,
-       interned trace-number string, unique entry index)
+       rank of the trace-number string in Go string order, unique entry index)
 `flatten -`           the Go side skipped the case (the real call returned an error); answer `-`
 
-answer: the output groups of `flatten`, canonicalised — inside a group the payloads sorted ascending, the groups sorted
-by (sig, payload list) — as `<sig>:<p>,<p>,…|<sig>:…` (`-` for no group at all).  The canonicalisation is driver glue:
-the real output order goes through a Go map, a second unstable sort and a re-sort of the entries by trace number.
+answer: the output groups of `flattenSorted` — inside a group the payloads in the order of their entries (ascending trace
+number, as `AddToFile` leaves them), the groups sorted by (sig, payload list) — as `<sig>:<p>,<p>,…|<sig>:…` (`-` for no
+group at all).  Trace numbers are ranks that preserve the order of the trace-number strings.  The order of the groups is
+driver glue: the real one goes through a Go map and a second unstable sort.
 Anything malformed: `bad-op`.
 -/
 namespace Ach.FlattenDriver
@@ -40,7 +41,7 @@ def groupLe (a b : Nat × List Nat) : Bool :=
   if a.1 < b.1 then true else if b.1 < a.1 then false else natListLe a.2 b.2
 
 def canon (gs : List FBatch) : List (Nat × List Nat) :=
-  (gs.map (fun g => (g.sig, (g.entries.map (·.payload)).mergeSort (fun a b => decide (a ≤ b))))).mergeSort groupLe
+  (gs.map (fun g => (g.sig, g.entries.map (·.payload)))).mergeSort groupLe
 
 def showGroup (g : Nat × List Nat) : String :=
   s!"{g.1}:" ++ ",".intercalate (g.2.map toString)
@@ -51,7 +52,7 @@ def run (args : List String) : String :=
   | [bs] =>
     match (bs.splitOn "|").mapM parseBatch with
     | some bs =>
-      let out := canon (flatten bs)
+      let out := canon (flattenSorted bs)
       if out.isEmpty then "-" else "|".intercalate (out.map showGroup)
     | none => "bad-op"
   | _ => "bad-op"
